@@ -331,7 +331,12 @@ fn skip<'a>(
                     }
                     items.push((CodePoint { line_num, num: 3 }, line.to_string()));
                 }
-                context.macros.macroses.borrow_mut().insert(name, items);
+                // macro calls are looked up by their lower-cased name
+                context
+                    .macros
+                    .macroses
+                    .borrow_mut()
+                    .insert(name.to_lowercase(), items);
             } else {
                 while let Some((num, line)) = iter.next() {
                     #[cfg(feature = "verif")]
